@@ -495,6 +495,8 @@ type Opts struct {
 	KnowsSys   func(arch, name string) bool
 	KnowsArch  func(name string) bool
 	MaxFilters int
+	onlyCmp    bool // GenFilter draws inter-field comparisons only
+	safeOnly   bool // GenFilter draws only filters the library accepts on the exit list (rules near the field limit)
 }
 
 func u32(t *rapid.T, label string) uint32 {
@@ -577,6 +579,12 @@ func GenFilter(t *rapid.T, list string, o Opts, haveArch *string) (Filter, strin
 	kind := pick(t, "fkind", kinds)
 	if rapid.IntRange(0, 24).Draw(t, "outofrange") == 0 {
 		kind = "range"
+	}
+	if o.safeOnly {
+		kind = pick(t, "safekind", []string{"num", "cmp", "inode", "num", "saddr_fam"})
+	}
+	if o.onlyCmp {
+		kind = "cmp"
 	}
 	op := pick(t, "op", AllOps)
 	invalid := ""
@@ -769,6 +777,25 @@ func GenFilter(t *rapid.T, list string, o Opts, haveArch *string) (Filter, strin
 	return f, invalid
 }
 
+// GenWatchShaped draws a syscall rule that has exactly the shape of a file watch (exit,always, all syscalls,
+// path= or dir= with '=', perm=, optionally keys): the printed form of such a rule is `-w target -p perms`.
+func GenWatchShaped(t *rapid.T, o Opts, field, target string) Spec {
+	s := Spec{List: "exit", Action: "always", Struct: !o.FlagsRoute && rapid.Bool().Draw(t, "structroute")}
+	p := rapid.StringMatching(`[rwxa]{1,4}`).Draw(t, "perm")
+	var v uint32
+	for i := 0; i < len(p); i++ {
+		v |= uapi.A(PermBit[p[i]])
+	}
+	tf := flt(field, "=", []byte(target), uint32(len(target)), "string")
+	tf.IsStr = true
+	s.Filters = []Filter{tf, flt("perm", "=", []byte(p), v, "perm")}
+	if !s.Struct {
+		o.FlagsRoute = true
+	}
+	s.Keys = genKeys(t, o)
+	return s
+}
+
 // GenSpec draws a rule.
 func GenSpec(t *rapid.T, o Opts) Spec {
 	var s Spec
@@ -796,9 +823,20 @@ func GenSpec(t *rapid.T, o Opts) Spec {
 	if rapid.IntRange(0, 60).Draw(t, "many") == 0 {
 		n = rapid.IntRange(60, 70).Draw(t, "nmany")
 	}
+	// around the 64-field limit the kinds matter: -F filters, -C comparisons and the key are counted at
+	// different places, so every mix of a tail of comparisons, with and without keys, is drawn on purpose
+	cmpTailFrom := -1
+	if n >= 60 {
+		// a rule this long is only accepted if every single filter is: stay with kinds that always are
+		s.List, o.safeOnly = "exit", true
+		if rapid.Bool().Draw(t, "cmptail") {
+			cmpTailFrom = rapid.IntRange(58, 66).Draw(t, "cmptailfrom")
+		}
+	}
 	arch := ""
 	for i := 0; i < n; i++ {
 		prevArch := arch
+		o.onlyCmp = cmpTailFrom >= 0 && len(s.Filters) >= cmpTailFrom
 		f, inv := GenFilter(t, s.List, o, &arch)
 		if inv != "" && rapid.IntRange(0, 3).Draw(t, "keepinvalid") != 0 {
 			arch = prevArch
@@ -865,6 +903,9 @@ func GenSpec(t *rapid.T, o Opts) Spec {
 		}
 	}
 	s.Keys = genKeys(t, o)
+	if cmpTailFrom >= 0 && rapid.Bool().Draw(t, "cmptailnokeys") {
+		s.Keys = nil
+	}
 	if s.List == "exclude" && len(s.Keys) > 0 {
 		// the library does not admit keys on the exclude list
 		if rapid.IntRange(0, 3).Draw(t, "keepkeys") != 0 {
